@@ -277,12 +277,18 @@ func genC18(r *Run) {
 			bip = append(append(make([]byte, 10), 0xff, 0xff), bip...) // 16-octet form of the bound address
 		}
 		bport := r.Pick(68, 68, 0, 546)
-		blen := r.Pick(0, 10, 300, 576, 1500)
+		blen := r.Pick(0, 10, 300, 576, 1500, 1500)
 		var frames [][]byte
 		var expect [][]byte
 		for k := r.Rng.Intn(6); k >= 0; k-- {
 			s := frameSpec{ihl: 5, proto: 17, version: 4, sip: r.Bytes(4), dip: bip[len(bip)-4:], sport: r.Rng.Intn(65536), dport: bport, truncateTo: -1}
 			s.payload = r.Bytes(r.Pick(0, 1, 7, 8, 9, 240, 300, 600))
+			if r.Rng.Intn(4) == 0 {
+				// total lengths around the multiples of 256 (the low octet of the length field near 0 .. header size):
+				// a check that looks at one octet of a 16-bit field goes wrong exactly there
+				tl := 256*(1+r.Rng.Intn(5)) - 3 + r.Rng.Intn(28)
+				s.payload = r.Bytes(tl - 28)
+			}
 			nmut := 1
 			if r.Rng.Intn(3) == 0 {
 				nmut = 2 // two deviations at once (options + short total length, padding + other port, ...)
